@@ -74,17 +74,44 @@ def geometry_job(job):
     neutral_rel = rf.trans_inv(sp.getBottomT().gTM()) @ sp.getTopT().gTM()
     h = float(neutral_rel[2, 3])
     stage_list = ["fresh", "moved", "respun"]
+    prev_tables, spin = None, 0.0
     for stage in stage_list:
         with quiet():
             if stage == "moved":
                 base = spzoo.rand_base(rng)
                 sp.move(tm(base.copy()))
             elif stage == "respun":
-                sp.spinCustom(rng.uniform(-1.0, 1.0))
+                spin = rng.uniform(-1.0, 1.0)
+                sp.spinCustom(spin)
                 base = sp.getBottomT().gTM()
             # back to neutral on the current base, then read the plate-fixed tables through the getters
             sp.IK(top_plate_pos=tm(base @ neutral_rel), bottom_plate_pos=tm(base.copy()), protect=True)
         bl, tl = spzoo.tables(sp)
+        # G0: WHICH points are plate-fixed.  The constructors' parameters say it (joint circle radius, angular spacing of the
+        # paired joints in degrees, plate thickness = joint height over / under the plate origin); a base move leaves the
+        # plate coordinates alone, a re-spin turns both plates' joints about the plate axis by the requested angle.
+        g0reg = "%s|%s" % (how, stage)
+        sc = max(1.0, p["rb"])
+        if stage == "fresh" and how in ("newSP", "loadSP"):
+            # (handedness -1 builds the mirror assembly: the two plates exchange their angular patterns, spacings included)
+            gb, gt = (p["bsp"], p["tsp"]) if p["rot"] == 1 else (p["tsp"], p["bsp"])
+            for nm, t, rad, gap, z in (("bottom", bl, p["rb"], gb, p["bth"]), ("top", tl, p["rt"], gt, -p["tth"])):
+                ang = np.sort(np.degrees(np.arctan2(t[1], t[0])) % 360.0)
+                gaps = np.sort(np.append(np.diff(ang), ang[0] + 360.0 - ang[-1]))
+                ev.append(("G0 %s joints on the circle of the given radius" % nm, g0reg, float(np.abs(np.hypot(t[0], t[1]) - rad).max()) / sc, 1e-9, case0))
+                ev.append(("G0 %s joints at the plate thickness" % nm, g0reg, float(np.abs(t[2] - z).max()) / sc, 1e-9, case0))
+                ev.append(("G0 %s joint pairs spaced as given, pairs 120 deg apart" % nm, g0reg,
+                           float(np.abs(gaps - np.sort([gap] * 3 + [120.0 - gap] * 3)).max()), 1e-7, case0))
+        if prev_tables is not None:
+            pb0, pt0 = prev_tables
+            if stage == "moved":
+                ev.append(("G0 a base move leaves the plate-fixed points alone", g0reg,
+                           float(max(np.abs(bl - pb0).max(), np.abs(tl - pt0).max())) / sc, 1e-9, case0))
+            else:
+                Rz = rf.rot_exp([0, 0, spin])
+                ev.append(("G0 a re-spin turns both joint sets by the requested angle", g0reg,
+                           float(max(np.abs(bl - Rz @ pb0).max(), np.abs(tl - Rz @ pt0).max())) / sc, 1e-9, dict(case0, spin=spin)))
+        prev_tables = (bl.copy(), tl.copy())
         for k in range(n_poses):
             rel = spzoo.workspace_pose(rng, h)
             T = base @ rel
@@ -146,6 +173,13 @@ def run(ctx):
                 "G3 FK recovers the pose (fk_mode 1)"):
         for reg in ("newSP|identity-base|fresh", "newSP|placed|moved", "newSP|placed|respun", "loadSP|placed|respun"):
             L.require(law, reg, 2)
+    for how in ("newSP", "loadSP"):
+        for nm in ("bottom", "top"):
+            for law in ("G0 %s joints on the circle of the given radius", "G0 %s joints at the plate thickness",
+                        "G0 %s joint pairs spaced as given, pairs 120 deg apart"):
+                L.require(law % nm, how + "|fresh", 3)
+        L.require("G0 a base move leaves the plate-fixed points alone", how + "|moved", 3)
+        L.require("G0 a re-spin turns both joint sets by the requested angle", how + "|respun", 3)
     with ctx.timed("lawtrace"):
         counts = L.decide(ctx, tag="c09")
     skipped = sum(v for (law, _), v in counts.items() if law.startswith("pose outside"))
